@@ -401,7 +401,14 @@ static void do_tjseq(char *p)
 }
 
 /* ---------------------------------------------------------------- setup stream */
-static int quiet = 0, no_restart = 0, setup_nc, setup_raw; static unsigned setup_w, setup_h;
+static int quiet = 0, no_restart = 0, setup_nc, setup_raw, setup_opt; static unsigned setup_w, setup_h;
+static struct jpeg_progress_mgr prog; static int pass_seen[256], npass_seen, pass_total;
+static void prog_mon(j_common_ptr c)
+{
+  struct jpeg_progress_mgr *p = c->progress;
+  if (npass_seen == 0 || pass_seen[npass_seen - 1] != p->completed_passes) { if (npass_seen < 256) pass_seen[npass_seen++] = p->completed_passes; }
+  pass_total = p->total_passes;
+}
 #define OUT if (!quiet) printf
 static int do_setup(char *p)
 {
@@ -447,8 +454,9 @@ static int do_setup(char *p)
   cc.restart_interval = no_restart ? 0 : (unsigned int)ri; cc.restart_in_rows = no_restart ? 0 : (int)rir;
   cc.raw_data_in = (boolean)raw; cc.arith_code = (boolean)arith; cc.optimize_coding = (boolean)opt;
   cc.smoothing_factor = (int)smooth;
+  prog.progress_monitor = prog_mon; npass_seen = 0; pass_total = 0; cc.progress = &prog;
   jpeg_start_compress(&cc, TRUE);
-  started = 1;
+  started = 1; setup_opt = cc.optimize_coding;
   OUT("start %d %d %u |", cc.max_h_samp_factor, cc.max_v_samp_factor, cc.total_iMCU_rows);
   for (i = 0; i < cc.num_components; i++) OUT(" %u,%u", cc.comp_info[i].width_in_blocks, cc.comp_info[i].height_in_blocks);
   OUT(" | %d %u %u %u |", cc.blocks_in_MCU, cc.MCUs_per_row, cc.MCU_rows_in_scan, cc.restart_interval);
@@ -507,6 +515,26 @@ static void print_dri(const unsigned char *s, size_t n)
   }
 }
 
+/* every marker segment in hex, entropy-coded data as '|'; DHT payloads elided when the tables were computed by the library */
+static void print_skeleton(const unsigned char *s, size_t n, int elide_dht)
+{
+  size_t i = 2, k; int k2;
+  printf(" hdr=ffd8");
+  while (i + 1 < n) {
+    int m; size_t l;
+    if (s[i] != 0xFF) { printf("|"); while (i + 1 < n && !(s[i] == 0xFF && s[i + 1] != 0 && !(s[i + 1] >= 0xD0 && s[i + 1] <= 0xD7))) i++; continue; }
+    m = s[i + 1];
+    if (m == 0xD9) { printf("ffd9"); break; }
+    if (i + 3 >= n) break;
+    l = ((size_t)s[i + 2] << 8) | s[i + 3];
+    if (m == 0xC4 && elide_dht) printf("ffc4%02x..", s[i + 4]);
+    else for (k = i; k < i + 2 + l && k < n; k++) printf("%02x", s[k]);
+    i += 2 + l;
+  }
+  printf(" passes=%d:", pass_total);
+  for (k2 = 0; k2 < npass_seen; k2++) printf("%s%d", k2 ? "," : "", pass_seen[k2]);
+}
+
 /* variant 0: setup.  1: rst = also encode without restarts and compare the coefficients.
    2: raw MODE ... = raw-data input offering MODE-dependent num_lines; reference = one iMCU row per call */
 static void do_setup_variant(char *p, int variant)
@@ -514,7 +542,7 @@ static void do_setup_variant(char *p, int variant)
   unsigned char *ref = NULL; size_t reflen = 0; int ok;
   raw_lines_mode = 0; no_restart = 0; quiet = 0;
   if (variant == 2) raw_lines_mode = (int)strtol(p, &p, 10);
-  if (variant) {
+  if (variant == 1 || variant == 2) {
     int keep = raw_lines_mode;
     quiet = 1; if (variant == 1) no_restart = 1; else raw_lines_mode = 0;
     if (do_setup(p)) { reflen = dest.len; ref = malloc(reflen + 1); memcpy(ref, dest.data, reflen); }
@@ -524,11 +552,12 @@ static void do_setup_variant(char *p, int variant)
   raw_lines_mode = 0;
   if (!ok) { printf(" # -\n"); free(ref); return; }
   if (variant == 1) print_dri(dest.data, dest.len);
+  if (variant == 3) print_skeleton(dest.data, dest.len, setup_opt);
   {
     char ob[256];
     oracle(dest.data, dest.len, setup_raw, ob, sizeof(ob));
     printf(" # %s exp=%ux%ux%d", ob, setup_w, setup_h, setup_nc);
-    if (variant) printf(" same=%d", ref ? same_coefficients(ref, reflen, dest.data, dest.len) : -2);
+    if (variant == 1 || variant == 2) printf(" same=%d", ref ? same_coefficients(ref, reflen, dest.data, dest.len) : -2);
     printf("\n");
   }
   free(ref);
@@ -608,6 +637,31 @@ static void do_coef(char *p)
   memset(block, 0, sizeof(block));
   block[pos & 63] = (short)v;
   run_coefs(prec, mode, 4096, NULL, NULL, block, 0);
+}
+
+/* tn PATH WHICH IDX ARITH OPT : table numbers of a component at and beyond their limits
+   PATH 0 compress, 1 jpeg_write_coefficients; WHICH 0 quant_tbl_no, 1 dc_tbl_no, 2 ac_tbl_no */
+static void do_tn(char *p)
+{
+  int path = (int)nextl(&p), which = (int)nextl(&p), idx = (int)nextl(&p), arith = (int)nextl(&p), opt = (int)nextl(&p);
+  jvirt_barray_ptr arr[1];
+  prng = 77;
+  fresh_compress();
+  if (setjmp(jb)) { printf("err %s # -\n", err_name(last_err)); jpeg_destroy_compress(&cc); return; }
+  set_dest(&cc, 4096);
+  cc.image_width = 8; cc.image_height = 8; cc.input_components = 1; cc.in_color_space = JCS_GRAYSCALE;
+  jpeg_set_defaults(&cc);
+  if (which == 0) cc.comp_info[0].quant_tbl_no = idx; else if (which == 1) cc.comp_info[0].dc_tbl_no = idx; else cc.comp_info[0].ac_tbl_no = idx;
+  cc.arith_code = (boolean)arith; cc.optimize_coding = (boolean)opt;
+  if (path == 0) { jpeg_start_compress(&cc, TRUE); feed_image(&cc); }
+  else {
+    arr[0] = (*cc.mem->request_virt_barray) ((j_common_ptr)&cc, JPOOL_IMAGE, TRUE, 1, 1, 1);
+    jpeg_write_coefficients(&cc, arr);
+  }
+  jpeg_finish_compress(&cc);
+  jpeg_destroy_compress(&cc);
+  printf("ok");
+  print_oracle(0, 8, 8, 1);
 }
 
 /* ------------------------------------------------------------------ quant tables */
@@ -695,6 +749,8 @@ int main(void)
     if (!strcmp(cmd, "setup")) do_setup_variant(p, 0);
     else if (!strcmp(cmd, "rst")) do_setup_variant(p, 1);
     else if (!strcmp(cmd, "raw")) do_setup_variant(p, 2);
+    else if (!strcmp(cmd, "hdr")) do_setup_variant(p, 3);
+    else if (!strcmp(cmd, "tn")) do_tn(p);
     else if (!strcmp(cmd, "blk")) do_blk(p);
     else if (!strcmp(cmd, "coef")) do_coef(p);
     else if (!strcmp(cmd, "qt")) do_qt(p);
